@@ -1,0 +1,12 @@
+//go:build verif
+// +build verif
+
+package backend
+
+// SetEventsTTLForSim changes the TTL (seconds) given to Event records; it returns the previous value.
+// Free-running workloads use a short TTL so that expiry timers fire while requests are being served.
+func SetEventsTTLForSim(seconds int64) int64 {
+	old := eventsTTL
+	eventsTTL = seconds
+	return old
+}
